@@ -663,6 +663,15 @@ def run(run: Run) -> int:
                 ck.check_none_run(prog, none)
                 called = [p for p, r in enumerate(base["recs"]) if not r["skipped"] and r["calls"] and r["outs"] is not None]
                 fault_runs = []
+                if pi == 0:
+                    # corpus of past minimal failures: one deterministic fault run per known mechanism
+                    for pos, f in CORPUS_FAULTS:
+                        fr = run_program(world, prog, backend, {pos: f}, reuse=base)
+                        ck.n_fault_runs += 1
+                        tainted = ck.is_tainted(base, fr)
+                        for p in range(len(prog["steps"])):
+                            ck.check_step(prog, fr, p, tainted)
+                        ck.check_downstream(prog, base, fr)
                 if called:
                     for j in range(faults_per_prog):
                         k = 1 if j % 6 else rng.choice([2, 3])
@@ -712,6 +721,27 @@ def run(run: Run) -> int:
         "BaseException subclasses (KeyboardInterrupt, SystemExit) are deliberately not swallowed by spox and are out of scope",
         "downstream_more_permissive is proved under the Section hypothesis that inference is monotone in the known constant operands",
     ])
+
+
+# (step of corpus_program, fault): the mechanisms found so far, replayed first on every run
+CORPUS_FAULTS = [
+    (0, {"kind": "ret", "payload": "list2", "idx": 0}),          # F5: list for a Tensor output at op.add
+    (0, {"kind": "ret", "payload": "list1", "idx": 0}),          # single-element list: unwrapped by REFERENCE, TypeError under ORT
+    (0, {"kind": "ret", "payload": "pyfloat", "idx": 0}),        # scalar: "No handler" under ORT
+    (0, {"kind": "ret", "payload": "ragged-tuple", "idx": 0}),   # np.array raises
+    (0, {"kind": "ret", "names": "extra-unknown"}),              # unknown result name
+    (0, {"kind": "ret", "names": "inputs-only"}),                # entries under input names only
+    (3, {"kind": "ret", "payload": "list-wrong-dtype", "idx": 0}),   # Sequence elements of the wrong dtype
+    (3, {"kind": "ret", "payload": "list-none", "idx": 0}),
+    (4, {"kind": "ret", "payload": "wrong-dtype", "idx": 0}),    # Optional payload of the wrong dtype
+    (4, {"kind": "ret", "payload": "empty", "idx": 0}),
+    (7, {"kind": "ret", "payload": "objarr-other", "idx": 0}),   # object array of non-strings for a string tensor
+    (7, {"kind": "ret", "payload": "objarr-str", "idx": 0}),
+    (6, {"kind": "ret", "payload": "list2", "idx": 0}),          # inlined model
+    (5, {"kind": "ret", "struct": "swap"}),                      # TopK outputs swapped by the backend
+    (0, {"kind": "raise", "stage": "run", "exc": "RuntimeError"}),
+    (6, {"kind": "raise", "stage": "ctor", "exc": "MemoryError"}),
+]
 
 
 def corpus_program():
